@@ -323,3 +323,6 @@ func diffBits2(a, b [][]float64) (string, bool) {
 	}
 	return "", false
 }
+
+func nan() float64       { return math.NaN() }
+func inf(s int) float64  { return math.Inf(s) }
